@@ -28,7 +28,7 @@ STUBS = [
     "variant m1024: StreamReaderBufferedProtocol.max_size = 1024 (class attribute) makes the read high-water mark 0, so pause_reading/resume_reading are exercised by a few bytes",
 ]
 ASSUMPTIONS = ["the event loop calls get_buffer()/buffer_updated() back-to-back (as selector_events does) and never while reading is paused"]
-BOUNDS = {"quick": "stream of 6 distinct bytes, K <= 4 events before the drain, <= 2 cancellations, receive sizes 1..3", "thorough": "K <= 6, stream 8"}
+BOUNDS = {"quick": "stream of 6 distinct bytes, K <= 4 events before the drain (7 with a fixed 4-event prefix in the tls r2 shards), <= 2 cancellations, receive sizes 1..3; blocking layers: 2 frames, <= 3 timed receives with T in {0, 1} ticks, <= 2 would-blocks, reads of 1 byte", "thorough": "K <= 6, stream 8"}
 OUTSIDE = "uvloop/trio backends, the real selector transport; for TLS only the schedule around cancelled receives is explored (OpenSSL runs concretely; byte-transparency of TLS is C08, not claimed)"
 
 
